@@ -2,6 +2,7 @@ package props
 
 import (
 	"bytes"
+	"strings"
 	"time"
 
 	"encoding/pem"
@@ -61,9 +62,15 @@ func drawRevoked(t *rapid.T, label string, targets map[string][]byte, s *gen.Str
 		list = append(list, b)
 	}
 	for _, name := range []string{"leaf", "int", "tcb", "qe"} {
-		switch rapid.IntRange(0, 11).Draw(t, label+"-"+name) {
+		switch rapid.IntRange(0, 12).Draw(t, label+"-"+name) {
 		case 0:
 			list = append(list, targets[name])
+			contains[name] = true
+		case 12:
+			// the serial itself AND its near misses (one of which agrees with it in all but the top byte, i.e. modulo 2^64
+			// and more), in any order
+			list = append(list, targets[name])
+			list = append(list, nearMisses(targets[name], s)...)
 			contains[name] = true
 		case 1, 2, 3:
 			list = append(list, nearMisses(targets[name], s)...)
@@ -157,6 +164,20 @@ func TestC05(t *testing.T) {
 		}
 		pck.reasons, root.reasons = reasonsFor(len(pck.revoked)), reasonsFor(len(root.revoked))
 
+		// how the lists are encoded: by the standard library, or by hand with the issuer's name spelled in UTF8String
+		// attribute values (the certificates use PrintableString) and / or without a cRLNumber extension
+		crlEnc := rapid.SampledFrom([]string{"stdlib", "stdlib", "utf8-issuer", "no-number", "utf8-issuer-no-number"}).Draw(t, "crlEncoding")
+		gen.Class("crl-encoding:" + crlEnc)
+		encode := func(issuerCert *gen.Cert, key *gen.Key, spec gen.CRLSpec) []byte {
+			if crlEnc == "stdlib" {
+				return gen.MakeCRL(issuerCert, key, spec)
+			}
+			var raw []byte
+			if strings.HasPrefix(crlEnc, "utf8") {
+				raw = gen.RawNameUTF8(issuerCert.X.Subject)
+			}
+			return gen.MakeCRLByHand(issuerCert, key, spec, raw, !strings.HasSuffix(crlEnc, "no-number"))
+		}
 		foreign := gen.DeriveKey("c05/foreign")
 		authentic := map[string][]byte{} // per kind: the CRL as its issuer really signed it
 		mk := func(kind string, pl crlPlan) []byte {
@@ -166,14 +187,14 @@ func TestC05(t *testing.T) {
 				issuerCert, key, otherCert, otherKey = p.Root, p.Root.Key, p.Int, p.Int.Key
 			}
 			spec := gen.CRLSpec{Revoked: pl.revoked, RevokedAt: pl.revokedAt, Reasons: pl.reasons}
-			authentic[kind] = gen.MakeCRL(issuerCert, key, spec)
+			authentic[kind] = encode(issuerCert, key, spec)
 			switch pl.signer {
 			case "other-ca":
-				return gen.MakeCRL(issuerCert, otherKey, spec) // right name, signed by the other CA's key
+				return encode(issuerCert, otherKey, spec) // right name, signed by the other CA's key
 			case "foreign-key":
-				return gen.MakeCRL(issuerCert, foreign, spec)
+				return encode(issuerCert, foreign, spec)
 			case "wrong-name":
-				return gen.MakeCRL(otherCert, key, spec) // right key, other issuer name
+				return encode(otherCert, key, spec) // right key, other issuer name
 			case "tampered":
 				// the authentic CRL with one listed serial altered after signing (signature bytes untouched)
 				victim := append([]byte{0x5a}, s.Bytes(9)...)
@@ -191,7 +212,7 @@ func TestC05(t *testing.T) {
 				if !listed {
 					spec.Revoked = append(append([][]byte{}, spec.Revoked...), victim)
 				}
-				authentic[kind] = gen.MakeCRL(issuerCert, key, spec)
+				authentic[kind] = encode(issuerCert, key, spec)
 				der := append([]byte{}, authentic[kind]...)
 				i := bytes.Index(der, victim)
 				if i < 0 {
@@ -200,7 +221,7 @@ func TestC05(t *testing.T) {
 				der[i+len(victim)-1] ^= 0x01
 				return der
 			}
-			return gen.MakeCRL(issuerCert, key, spec)
+			return encode(issuerCert, key, spec)
 		}
 		pckDER, rootDER := mk("pck", pck), mk("root", root)
 		body := func(outcome string, own, other []byte) gen.Response {
